@@ -163,6 +163,38 @@ pub fn gen_case(src: &mut Src, _i: usize) -> Case {
     case
 }
 
+/// long sessions: hundreds of calls, thousands of scrolled lines, limits 100 / 1000 / 255 / 256
+pub fn gen_long_session(src: &mut Src, _i: usize) -> Case {
+    let (cols, rows) = if src.chance(1, 3) { (80, 24) } else { gen::small_size(src) };
+    let limit = *src.pick(&[0usize, 9, 10, 100, 255, 256, 1000, 1023, 1024]);
+    let mut g = G::new(cols, rows);
+    g.ris = src.chance(1, 5);
+    let mut case = Case::new(cols, rows, Some(limit));
+    let n = src.range(150, 500);
+    for _ in 0..n {
+        match src.below(40) {
+            0 => {
+                let (c, r) = gen::resize_target(src, &g);
+                g.cols = c;
+                g.rows = r;
+                case.calls.push(Call::Resize(c, r));
+            }
+            1 => case.calls.push(Call::Feed(scroll_heavy(src, &g))),
+            2 | 3 => case.calls.push(Call::FeedStr(gen::frag(src, &g))),
+            _ => {
+                let k = src.range(1, 12);
+                let mut s = String::new();
+                for j in 0..k {
+                    s.push_str(&format!("line {}\r\n", j));
+                }
+                case.calls.push(Call::FeedStr(s));
+            }
+        }
+    }
+    case.nums = vec![src.below(3)];
+    case
+}
+
 /// wide content then narrowing (multiplies rows), for every limit
 fn enum_narrowing() -> Vec<Case> {
     let mut v = vec![];
@@ -207,6 +239,7 @@ pub fn run(env: &Env) -> PropRun {
     let mut parts = vec![];
     let en = enum_narrowing();
     parts.push(run_part(env, "enum-narrowing", en.len(), true, "12 limits x 3 sizes x {1,5,30} long lines x narrowing to {1,2,3,7} columns x with/without an alternate-screen excursion x 3 drain patterns", &|i| en.get(i).cloned(), &j));
+    parts.push(random_part(env, "long-sessions", env.tier.scale(400, 30), &gen_long_session, &j));
     parts.push(random_part(env, "random-histories", env.tier.scale(120_000, 30), &gen_case, &j));
     PropRun {
         parts,
